@@ -26,7 +26,9 @@ Definition accepted_type (h : option string) : bool :=
 
 Inductive body := BText (dispatch_out : option (json * list Z))      (* decodable body; what the dispatcher returned for it *)
                 | BUndecodable.                                       (* not valid UTF-8 *)
-Inductive status_fn := SDefault | SFirstError (table : list (Z * Z)) (other : Z) (allok : Z).
+Inductive status_fn := SDefault | SFirstError (table : list (Z * Z)) (other : Z) (allok : Z)
+                     | SMixed (allfail partial allok : Z)      (* looks at the successes too: 207-style gateways *)
+                     | SCount (base : Z).                       (* depends on how many calls were answered *)
 (* the harness's status functions: [allok] when every code is 0, else the table entry of the first non-zero code, else [other] *)
 Fixpoint first_error (codes : list Z) : option Z :=
   match codes with [] => None | c :: r => if Z.eqb c 0 then first_error r else Some c end.
@@ -35,6 +37,9 @@ Definition status_of (f : status_fn) (codes : list Z) : Z :=
   match f with
   | SDefault => 200
   | SFirstError t other allok => match first_error codes with None => allok | Some c => match ztable c t with Some s => s | None => other end end
+  | SMixed allfail partial allok =>
+      if forallb (Z.eqb 0) codes then allok else if existsb (Z.eqb 0) codes then partial else allfail
+  | SCount base => base + Z.of_nat (List.length codes)
   end%Z.
 
 Record reply := { r_status : Z; r_ctype : option string; r_body : option json; r_dispatched : bool }.
